@@ -314,6 +314,31 @@ static void regcase(long seed)
 		}
 	}
 }
+/* names at and beyond the longest token a line can hold (79 characters): one that cannot be typed at all must never run,
+ * whatever prefix of it is typed; a 79-character name typed in full runs */
+static void longnames(void)
+{
+	unsigned char nm[96];
+	static const int lens[] = { 93, 80, 79, 78, 2 };
+	for (int path = 0; path < 2; path++)
+		for (int order = 0; order < 4; order++) {
+			reset();
+			for (int k = 0; k < 5; k++) {
+				int l = lens[order & 1 ? 4 - k : k];
+				if (l == 79 && order >= 2) continue;       /* without the name that can just be typed */
+				memset(nm, 'k', sizeof(nm));
+				if (l > 80) memcpy(nm + 79, "-factory-reset", 14);
+				do_reg(nm, l);
+			}
+			for (int tl = 77; tl <= 81; tl++) {
+				for (int j = 0; j < tl; j++) do_char('k', path);
+				do_char(10, path);
+				do_char(10, path);
+			}
+			for (int j = 0; j < 2; j++) do_char('k', path);
+			do_char(10, path);
+		}
+}
 /* degenerate injections: the empty string, a lone newline, strings without a newline; whatever is injected, the line typed
  * afterwards runs as typed */
 static void evaledge(void)
@@ -375,6 +400,7 @@ int main(void)
 		else if (drv_is(&c, "RegOrders")) regorders(drv_arg(&c, 0));
 		else if (drv_is(&c, "RegCase")) regcase(drv_arg(&c, 0));
 		else if (drv_is(&c, "EvalEdge")) evaledge();
+		else if (drv_is(&c, "LongNames")) longnames();
 		else if (drv_is(&c, "Twos")) twos(drv_arg(&c, 0), drv_arg(&c, 1));
 		else { fprintf(stderr, "console_drv: unknown command %s\n", c.tok[0]); return 3; }
 	}
